@@ -50,6 +50,53 @@ def build(c: Contract) -> Engine:
     return E
 
 
+def build_corollary(cor) -> Engine:
+    """engine state for a corollary: no code is executed, only contracts are applied"""
+    from .calls import apply_contract
+    from .contract import Contract
+    dummy = Contract(key=cor.calls[0][1], props=cor.props, types={})
+    E = Engine.__new__(Engine)
+    _init_no_source(E, dummy)
+    st = State()
+    for v, t in cor.vars.items():
+        st.env[v] = E.fresh_of_type(parse_type(t), v, st)
+    E.param_names = list(cor.vars)
+    E.spec_mode += 1
+    try:
+        for k, e in cor.let.items():
+            st.env[k] = E.ev(ast.parse(e, mode="eval").body, st)
+        for r in cor.requires:
+            st.pc.append(toz(E.truth(E.ev(ast.parse(r, mode="eval").body, st))))
+    finally:
+        E.spec_mode -= 1
+    E.entry = State(dict(st.env), dict(st.heap), list(st.pc))
+    E.canaries.append(("canary:entry", list(st.pc)))
+    for (res, key, argmap) in cor.calls:
+        c = CONTRACTS[key]
+        bound = {p: E.evs(e, st) for p, e in argmap.items()}
+        E.cur_line = "cor:" + res
+        st.env[res] = apply_contract(E, c, bound, st, "%s(%s)" % (c.qualname, res))
+    E.canaries.append(("canary:end", list(st.pc)))
+    for i, e in enumerate(cor.ensures):
+        g = toz(E.truth(E.evs(e, st)))
+        E.obl.append(Obligation("corollary:%s#%d" % (cor.name, i), list(st.pc), g, None, "corollary"))
+    return E
+
+
+def _init_no_source(E, c):
+    import itertools
+    E.c = c
+    E.mi, E.fn = source.function(c.key)
+    E.obl, E.exits = [], []
+    E.ids, E.fresh_n = itertools.count(1), itertools.count(1)
+    E.spec_inst, E.global_axioms, E.lemma_obls = {}, [], []
+    E.loops, E.loop_stack = [], []
+    E.spec_mode, E.heap_override, E.bound_vars = 0, [], []
+    E.entry, E.trusted_used, E.callees = None, [], []
+    E.math_used, E.warnings, E.cur_line = set(), [], None
+    E.sum_inst, E.inline_depth, E.canaries, E.param_names = {}, 0, [], []
+
+
 def param_value(E, p):
     if p.startswith("self."):
         return E.entry.env["self"][p[5:]]
@@ -119,7 +166,7 @@ def all_axioms(E: Engine, proven_lemmas, internal_for=None):
         if key not in E.spec_inst:
             ax.extend(a)
     ma = math_axioms()
-    for m in E.math_used:
+    for m in sorted(set(getattr(E.c, "uses_math", []) or [])):      # opt-in: sqrt(a)>=0, sqrt(a)^2=a, exp>0
         ax.extend(ma.get(m, []))
     return ax
 
@@ -232,15 +279,17 @@ def cvc5_check(smt2: str, timeout_s=20):
 def verify(key: str, second_opinion=False, timeout_ms=None):
     """returns a plain dict (picklable)"""
     load_all()
-    c = CONTRACTS[key]
+    from .contract import COROLLARIES
+    is_cor = key in COROLLARIES
+    c = COROLLARIES[key] if is_cor else CONTRACTS[key]
     t0 = time.time()
-    out = {"key": key, "props": c.props, "status": "ok", "obligations": [], "trusted": c.trusted,
+    out = {"key": key, "props": c.props, "status": "ok", "obligations": [], "trusted": getattr(c, "trusted", False),
            "callees": [], "trusted_callees": [], "error": None, "lemmas": [], "sha": None, "path": None}
-    if c.trusted:
+    if getattr(c, "trusted", False):
         out["status"] = "trusted"
         return out
     try:
-        E = build(c)
+        E = build_corollary(c) if is_cor else build(c)
     except ContractStale as e:
         out["status"] = "stale"; out["error"] = str(e); return out
     except OutsideSubset as e:
@@ -253,7 +302,7 @@ def verify(key: str, second_opinion=False, timeout_ms=None):
     out["callees"] = sorted(set(E.callees))
     out["trusted_callees"] = sorted(set(E.trusted_used))
     out["build_s"] = round(time.time() - t0, 3)
-    tmo = timeout_ms or c.timeout_ms or DEFAULT_TIMEOUT_MS
+    tmo = timeout_ms or getattr(c, "timeout_ms", None) or DEFAULT_TIMEOUT_MS
     try:
         # lemmas first (in declaration order; a lemma may use the ones before it)
         proven = set()
